@@ -23,6 +23,7 @@
 -/
 import KavaVerif.Proofs.AccumulatorHist
 import KavaVerif.Generated.C09Hooks
+import KavaVerif.Proofs.TieFnIncentive
 set_option linter.unusedSimpArgs false
 set_option linter.unusedVariables false
 
@@ -259,6 +260,101 @@ theorem C09_claim (σ : St) (a : Addr) (f now ce macc : Int) :
         have : chopRound (chopRound 0) = 0 := by decide
         simp only [this, ite_true]
 
+/-! ## one claim object fed by several instances (cdp collateral types, hard supply / borrow denoms, swap
+       pools, earn vaults all credit the same `claim.Reward`): "accrued" is the stored reward plus the SUM
+       over the instances of the pending reward -/
+
+/-- `Synchronize<Source>Claim` / `GetSynchronized<Source>Claim` (every instance in turn, each continuing
+    from the running claim) credits exactly the sum over ALL instances of what each instance's own
+    synchronisation would add, sets every stored index to its instance's global index, after which nothing
+    is pending on any instance and a repeated synchronisation changes nothing. -/
+theorem C09_multi_sync (r r' : Int) (xs ys : List Inst) (h : syncAllFrom r xs = .ok (r', ys)) :
+    r' = r + pendingSum xs ∧ ys = xs.map Inst.synced ∧ ys.length = xs.length ∧
+    pendingSum ys = 0 ∧ (∀ y ∈ ys, y.pending = 0) ∧ syncAllFrom r' ys = .ok (r', ys) := by
+  obtain ⟨e1, e2⟩ := syncAllFrom_ok xs r r' ys h
+  subst e2
+  exact ⟨e1, rfl, by simp, (pendingSum_synced xs).1, (pendingSum_synced xs).2, syncAllFrom_synced xs r'⟩
+
+/-- Frame between the instances of one claim object: the hook of instance `k` adds instance `k`'s pending
+    reward (computed with the shares passed, i.e. the pre-change ones) and moves instance `k`'s stored
+    index only; every other instance's entry (index and shares) is untouched, so what is pending there
+    stays pending. -/
+theorem C09_multi_frame (c c' : MClaim) (k : Nat) (x : Inst) (hx : c.xs[k]? = some x) (h : syncAt c k = .ok c') :
+    c'.r = c.r + x.pending ∧ c'.xs[k]? = some x.synced ∧ c'.xs.length = c.xs.length ∧
+    (∀ j, j ≠ k → c'.xs[j]? = c.xs[j]?) := by
+  unfold syncAt at h
+  rw [hx] at h
+  simp only at h
+  cases hs : singleReward x.i x.I x.s with
+  | none => rw [hs] at h; cases h
+  | some d =>
+    rw [hs] at h
+    simp only [Res.ok.injEq] at h
+    subst h
+    have hk : k < c.xs.length := by
+      rcases Nat.lt_or_ge k c.xs.length with hl | hl
+      · exact hl
+      · rw [List.getElem?_eq_none hl] at hx; cases hx
+    have hp : x.pending = d := by unfold Inst.pending; rw [hs]; rfl
+    refine ⟨by simp only [hp], ?_, by simp, ?_⟩
+    · simp [hk]
+    · intro j hj
+      simp only [List.getElem?_set]
+      have : ¬ k = j := fun e => hj e.symm
+      simp [this]
+
+/-- A claim on a claim object fed by several instances: refused after the claim end; otherwise it pays
+    `roundInt((stored reward + Σ_instances pending) · multiplier)` ≠ 0 out of the incentive account
+    (≤ its balance), resets the reward, leaves every instance synchronised, and the same claim repeated
+    immediately is refused for every multiplier / time / balance. -/
+theorem C09_multi_claim (c : MClaim) (f now ce macc : Int) :
+    (now > ce → mclaim c f now ce macc = .err) ∧
+    (∀ c' pay, mclaim c f now ce macc = .ok (c', pay) →
+      now ≤ ce ∧
+      pay = Dec.roundInt (Dec.mul (Dec.ofInt (c.r + pendingSum c.xs)) ⟨f⟩) ∧
+      pay ≠ 0 ∧ pay ≤ macc ∧
+      c'.r = 0 ∧ c'.xs = c.xs.map Inst.synced ∧ pendingSum c'.xs = 0 ∧
+      (∀ f2 now2 ce2 macc2, mclaim c' f2 now2 ce2 macc2 = .err)) := by
+  constructor
+  · intro h; unfold mclaim; simp only [h, ite_true]
+  · intro c' pay h
+    unfold mclaim at h
+    by_cases hn : now > ce
+    · simp only [hn, ite_true] at h; cases h
+    · simp only [hn, ite_false] at h
+      cases hs : syncAllFrom c.r c.xs with
+      | err => rw [hs] at h; cases h
+      | panic => rw [hs] at h; cases h
+      | ok p =>
+        obtain ⟨amt, ys⟩ := p
+        rw [hs] at h
+        simp only at h
+        obtain ⟨e1, e2⟩ := syncAllFrom_ok c.xs c.r amt ys hs
+        by_cases hp0 : Dec.roundInt (Dec.mul (Dec.ofInt amt) ⟨f⟩) = 0
+        · simp only [hp0, ite_true] at h; cases h
+        · simp only [hp0, ite_false] at h
+          by_cases hm : macc < Dec.roundInt (Dec.mul (Dec.ofInt amt) ⟨f⟩)
+          · simp only [hm, ite_true] at h; cases h
+          · simp only [hm, ite_false, Res.ok.injEq, Prod.mk.injEq] at h
+            obtain ⟨rfl, rfl⟩ := h
+            refine ⟨by omega, by rw [e1], hp0, by omega, rfl, e2, by simp only [e2]; exact (pendingSum_synced c.xs).1, ?_⟩
+            intro f2 now2 ce2 macc2
+            unfold mclaim
+            by_cases hn2 : now2 > ce2
+            · simp only [hn2, ite_true]
+            · simp only [hn2, ite_false, e2, syncAllFrom_synced]
+              simp only [Dec.roundInt, Dec.mul, Dec.ofInt, Int.zero_mul]
+              have : chopRound (chopRound 0) = 0 := by decide
+              simp only [this, ite_true]
+
+/-- non-vacuity: stored 5, two instances with 3 and 7 pending, multiplier 0.5: pays roundInt(7.5) = 8
+    (half-even), and the loop that restarts from the stored claim at every instance (crediting only the
+    last instance) would have paid roundInt(6) = 6 -/
+example : (match mclaim ⟨5, [⟨2 * P, 3 * P, P⟩, ⟨P, 7 * P, 0⟩]⟩ (P / 2) 1 2 1000 with
+    | .ok (c', pay) => decide (c' = ⟨0, [⟨2 * P, 3 * P, 2 * P⟩, ⟨P, 7 * P, P⟩]⟩ ∧ pay = 8)
+    | _ => false) = true := by decide
+example : pendingSum [⟨2 * P, 3 * P, P⟩, ⟨P, 7 * P, 0⟩] = 10 ∧ (⟨P, 7 * P, 0⟩ : Inst).pending = 7 := by decide
+
 /-! ## the premise "every share change is preceded by a sync with the pre-change shares",
        regenerated from the source modules on every run -/
 
@@ -322,5 +418,20 @@ set_option maxRecDepth 8000 in
 example : (claim (grun exPeriod (exStart, Ghost.zero) exOps).1 1 P (160 * NS) (200 * NS) 100000).isOk = true := by decide
 example : claim (grun exPeriod (exStart, Ghost.zero) exOps).1 1 P (201 * NS) (200 * NS) 100000 = .err := by
   exact (C09_claim _ _ _ _ _ _).1 (by decide)
+
+/-! ## source tie (regenerated)
+
+    `GoFn.Incentive.*` (Generated/FnIncentive.lean) is regenerated on every run from the Go source of
+    x/incentive/types/accumulator.go by the function translator (tools/extract/fn*.go); the theorem says that
+    the regenerated definition IS the hand-written model function the theorems above are about.  A source
+    edit re-opens this obligation.  Proof: Proofs/TieFnIncentive.lean. -/
+
+/-- `getTimeElapsedWithinLimits` (with `minTime`, `maxTime` and the saturating `time.Time.Sub`) = `elapsed`,
+    for ALL arguments; the two Go panics are the model's `none`. -/
+theorem C09_source_tie_getTimeElapsedWithinLimits (prev now start stop : Int) :
+    GoFn.Incentive.getTimeElapsedWithinLimits_translated = true ∧
+    GoFn.Incentive.getTimeElapsedWithinLimits prev now start stop
+      = Go.R.ofOption (elapsed prev now start stop) :=
+  TieFn.incentive_getTimeElapsedWithinLimits prev now start stop
 
 end KV.Acc
